@@ -30,4 +30,19 @@ def check(case, ctx):
 def sample(case, res):
     return gen.render(case)
 
-SIGNATURES = corecommon.SIGNATURES
+
+def _sig_twin(case, res):
+    """two names of one formula (the same formula asserted twice, C06 finding 'duplicate-term') are both listed"""
+    d = res.detail or {}
+    return str(d.get("what", "")).startswith("minimal-core-reducible") and bool(d.get("twin_term_in_core"))
+
+
+def _sig_recheck(case, res):
+    from . import sigs
+    d = res.detail or {}
+    return str(d.get("what", "")).startswith("minimal-core-reducible") and sigs.recheck_of_unsat_state(case, d.get("cmd_index", 0))
+
+
+SIGNATURES = dict(corecommon.SIGNATURES)
+SIGNATURES.update({"minimal-core-lists-two-names-of-one-formula": _sig_twin,
+                   "core-after-recheck-of-unsat-state": _sig_recheck})
